@@ -100,7 +100,8 @@ Go(p) ==
 
 EnvStep ==
   \/ \E p \in Procs : Go(p)
-  \/ \E o \in Objs : \E d \in {"rx", "tx"} :
+  \* traffic only through the pre-established sessions: their padded first frames are out, one unit = one frame of constant size
+  \/ \E o \in 1..Len(InitObjSeq) : \E d \in {"rx", "tx"} :
         Traffic(o, d) /\ pend' = [NoEv EXCEPT !.a = "traffic", !.o = o, !.d = d] /\ UNCHANGED <<rel, multi>>
   \/ \E a \in AdminOps : \E u \in Users :
         Admin(a, u) /\ pend' = [NoEv EXCEPT !.a = a, !.u = u] /\ UNCHANGED <<rel, multi>>
@@ -127,7 +128,7 @@ AdminPossible(a, u) ==
   /\ nadmin < MaxAdmin /\ dbx[u]
   /\ CASE a = "drain" -> dbc[u] # CrZ [] a = "expire" -> ~dbe[u] [] a = "unexpire" -> dbe[u] [] OTHER -> TRUE
 NoEnv == /\ Parked = {}
-         /\ ntraffic >= MaxTraffic \/ LiveObjs = {}
+         /\ ntraffic >= MaxTraffic \/ (LiveObjs \cap 1..Len(InitObjSeq)) = {}
          /\ ~\E a \in AdminOps : \E u \in Users : AdminPossible(a, u)
 Done == RunSet = {} /\ (IF Len(hist) < MaxDepth THEN NoEnv ELSE ParkedIn = {})
 Emit == Done => PrintT(<<"BEHAVIOUR", ToJson([prog |-> [p \in Procs |-> op[p]], steps |-> hist])>>)
